@@ -1,7 +1,211 @@
-// Package c05 interprets the C05 op language against the real packages (stub).
+// Package c05 interprets the C05 op language (hot-parameter QPS rules) against the real packages:
+// hotspot.LoadRules + api.Entry(WithArgs / WithAttachments / WithBatchCount) under a virtual clock.
+//
+//	clock <ms>
+//	tick <ms>
+//	load <n> <rule>*n      rule = res=..,cb=..,idx=..,key=..,T=..,burst=..,D=..,mq=..,cap=..,items=<-|val@int;…>
+//	entry <res> <batch> <nargs> <val>* <natt> <key=val>*
+//
+// A value is `v:<kind>:<text>`: i int, l int64, s string, b bool, f float64 bits, t struct{A int;B string}, n nil.
 package c05
 
-import "verifharness/internal/vh"
+import (
+	"fmt"
+	"math"
+	"runtime"
+	"strconv"
+	"strings"
 
-// New returns the interpreter for C05.
-func New() vh.Interp { return nil }
+	sentinel "github.com/alibaba/sentinel-golang/api"
+	"github.com/alibaba/sentinel-golang/core/base"
+	"github.com/alibaba/sentinel-golang/core/hotspot"
+	"github.com/alibaba/sentinel-golang/core/stat"
+	"verifharness/internal/vh"
+)
+
+const startMs = 1_900_000_000_000
+
+type pair struct {
+	A int
+	B string
+}
+
+type Interp struct {
+	clk   *vh.Clock
+	rules []*hotspot.Rule
+}
+
+func New() vh.Interp {
+	runtime.GOMAXPROCS(1)
+	runtime.LockOSThread()
+	vh.Silence()
+	return &Interp{clk: vh.NewClock(startMs)}
+}
+
+func (it *Interp) Reset() {
+	_ = hotspot.ClearRules()
+	stat.ResetResourceNodeMap()
+	it.rules = nil
+	it.clk.Sleeps = nil
+}
+
+func val(s string) interface{} {
+	p := strings.SplitN(s, ":", 3)
+	if len(p) != 3 || p[0] != "v" {
+		panic("bad value " + s)
+	}
+	switch p[1] {
+	case "i":
+		return int(vh.I(p[2]))
+	case "l":
+		return vh.I(p[2])
+	case "s":
+		return p[2]
+	case "b":
+		return p[2] == "1"
+	case "f":
+		u, err := strconv.ParseUint(p[2], 16, 64)
+		if err != nil {
+			panic("bad float " + s)
+		}
+		return math.Float64frombits(u)
+	case "t":
+		q := strings.SplitN(p[2], "_", 2)
+		if len(q) != 2 {
+			panic("bad struct " + s)
+		}
+		return pair{A: int(vh.I(q[0])), B: q[1]}
+	case "n":
+		return nil
+	}
+	panic("bad value kind " + s)
+}
+
+func dash(s string) string {
+	if s == "-" {
+		return ""
+	}
+	return s
+}
+
+func rule(s string) *hotspot.Rule {
+	r := &hotspot.Rule{MetricType: hotspot.QPS}
+	for _, kv := range strings.Split(s, ",") {
+		i := strings.Index(kv, "=")
+		if i < 0 {
+			panic("bad rule field " + kv)
+		}
+		k, v := kv[:i], kv[i+1:]
+		switch k {
+		case "res":
+			r.Resource = dash(v)
+		case "key":
+			r.ParamKey = dash(v)
+		case "cb":
+			r.ControlBehavior = hotspot.ControlBehavior(vh.I(v))
+		case "idx":
+			r.ParamIndex = int(vh.I(v))
+		case "T":
+			r.Threshold = vh.I(v)
+		case "burst":
+			r.BurstCount = vh.I(v)
+		case "D":
+			r.DurationInSec = vh.I(v)
+		case "mq":
+			r.MaxQueueingTimeMs = vh.I(v)
+		case "cap":
+			r.ParamsMaxCapacity = vh.I(v)
+		case "items":
+			if v != "-" && v != "" {
+				r.SpecificItems = map[interface{}]int64{}
+				for _, it := range strings.Split(v, ";") {
+					j := strings.LastIndex(it, "@")
+					if j < 0 {
+						panic("bad item " + it)
+					}
+					r.SpecificItems[val(it[:j])] = vh.I(it[j+1:])
+				}
+			}
+		default:
+			panic("bad rule field " + kv)
+		}
+	}
+	return r
+}
+
+func (it *Interp) Step(t []string, op string) string {
+	switch t[0] {
+	case "clock":
+		it.clk.SetMs(vh.U(t[1]))
+		return ""
+	case "tick":
+		it.clk.Ns += vh.U(t[1]) * 1e6
+		return ""
+	case "load":
+		n := int(vh.U(t[1]))
+		if len(t) != 2+n {
+			panic("bad load")
+		}
+		_ = hotspot.ClearRules()
+		it.rules = nil
+		for _, s := range t[2:] {
+			it.rules = append(it.rules, rule(s))
+		}
+		if _, err := hotspot.LoadRules(it.rules); err != nil {
+			return "err"
+		}
+		return fmt.Sprint(len(hotspot.GetRules()))
+	case "entry":
+		res := t[1]
+		batch := uint32(vh.U(t[2]))
+		na := int(vh.U(t[3]))
+		args := make([]interface{}, 0, na)
+		for _, s := range t[4 : 4+na] {
+			args = append(args, val(s))
+		}
+		nt := int(vh.U(t[4+na]))
+		rest := t[5+na:]
+		if len(rest) != nt {
+			panic("bad entry")
+		}
+		opts := []sentinel.EntryOption{sentinel.WithBatchCount(batch)}
+		if na > 0 {
+			opts = append(opts, sentinel.WithArgs(args...))
+		}
+		if nt > 0 {
+			m := make(map[interface{}]interface{}, nt)
+			for _, kv := range rest {
+				i := strings.Index(kv, "=")
+				m[kv[:i]] = val(kv[i+1:])
+			}
+			opts = append(opts, sentinel.WithAttachments(m))
+		}
+		it.clk.Sleeps = it.clk.Sleeps[:0]
+		e, b := sentinel.Entry(res, opts...)
+		out := "pass"
+		if b != nil {
+			if b.BlockType() != base.BlockTypeHotSpotParamFlow {
+				out = "block-other " + b.BlockType().String()
+			} else {
+				g := -1
+				for i, r := range it.rules {
+					if base.SentinelRule(r) == b.TriggeredRule() {
+						g = i
+					}
+				}
+				out = fmt.Sprintf("block %d", g)
+			}
+		} else {
+			e.Exit()
+		}
+		if len(it.clk.Sleeps) > 0 {
+			xs := make([]string, len(it.clk.Sleeps))
+			for i, d := range it.clk.Sleeps {
+				xs[i] = strconv.FormatInt(int64(d), 10)
+			}
+			out += " w:" + strings.Join(xs, ",")
+		}
+		return out
+	}
+	panic("bad op " + op)
+}
